@@ -1910,7 +1910,7 @@ EUPS distribution manifest for %s (%s). Version %s
         out.remapEntries()
         return out
 
-    def remapEntries(self, mapping=Mapping(), mode=None):
+    def remapEntries(self, mapping=None, mode=None):
         """Allow the user to modify entries in the Manifest
 
 The mapping is defined by the file userDataDir/manifest.remap, which consists of up to three columns:
@@ -1941,6 +1941,8 @@ distributions, all versions of afwdata should be omitted.
 
 Additional mappings can be provided.
 """
+        if mapping is None:
+            mapping = Mapping()
         # Want input mapping to persist
         mappingFromFiles = Mapping()
         for dirname in hooks.customisationDirs:
